@@ -62,6 +62,14 @@ func NewReader(data []byte, plan ReaderPlan, log *core.Log) (io.Reader, *SimRead
 			n = 4096
 		}
 		return bufio.NewReaderSize(s, n), s
+	case "bufio-rw":
+		// a reader that can Peek but is not a *bufio.Reader (nor seekable): to the Demuxer it is
+		// a plain reader
+		n := plan.BufioSize
+		if n < 256 {
+			n = 4096
+		}
+		return bufio.NewReadWriter(bufio.NewReaderSize(s, n), bufio.NewWriterSize(io.Discard, 16)), s
 	default:
 		return s, s
 	}
